@@ -99,6 +99,8 @@ def applyOp (p : PDB) : List String → Step
   | "p.join" :: rest => do
       let (o, _) ← parsePDB rest
       pure (p.join o, "-")
+  -- `PDB::from_iter(models)`: the models, collected again, are the same models
+  | ["p.collect"] => some (p, "-")
   | "p.extend" :: n :: rest => do
       let (ms, _) ← parseMany parseModel (← n? n) rest
       pure ({ p with models := p.models ++ ms }, "-")
